@@ -101,12 +101,44 @@ def sim_open(name, mode="r", *a, **kw):
     return _WriteHandle(disk, name, wf)
 
 
+class SimPath(object):
+    """`os.path` as seen by asl_workflow_engine.store: questions about files are answered by the simulated disk."""
+
+    def __init__(self, simos):
+        self._os = simos
+
+    def __getattr__(self, name):
+        import os.path
+        return getattr(os.path, name)
+
+    def exists(self, name):
+        return name in self._os._disk().files
+
+    isfile = exists
+    lexists = exists
+
+    def isdir(self, name):
+        return False
+
+    def getsize(self, name):
+        files = self._os._disk().files
+        if name not in files:
+            raise FileNotFoundError(2, "No such file or directory: %r" % name)
+        return len(files[name].encode("utf8"))
+
+
 class SimOS(object):
     """`os` as seen by asl_workflow_engine.store: file-name operations go to the simulated disk."""
+
+    def __init__(self):
+        self.path = SimPath(self)
 
     def __getattr__(self, name):
         import os
         return getattr(os, name)
+
+    def listdir(self, name="."):
+        return sorted(self._disk().files)
 
     def _disk(self):
         s = Sim.current
